@@ -21,11 +21,17 @@ RULE = ("(a) canonicalisers: the real utils.canonicalize_* / count_non_zeros on 
         "product of constructor arguments (lattice sizes {1,2,3}, rank <= 3, every monotonicity / unimodality / "
         "trust / convexity spelling, trust-dominance-joint pairs in and out of range, list/tuple/single-tuple "
         "forms, bounds {none, lo<hi, lo=hi, lo>hi}, PWL cyclic x monotonicity x convexity x clamps x keypoints "
-        "sorted/unsorted/short/duplicate, regulariser amounts scalar/list/tuple of right and wrong length, KFL, "
-        "Linear dominances incl. zero-width ranges, categorical pairs incl. out of range and cycles, CDF "
+        "sorted/unsorted/short/duplicate, input_keypoints_type None, integral-float spellings (monotonicity=1.0, "
+        "convexity=0.0, list entries and trust directions 1.0 / -1.0), regulariser amounts scalar/list/tuple of right "
+        "and wrong length, KFL, negative units / num_input_dims / num_buckets of Lattice (also units=0), Linear, "
+        "PWLCalibration, CategoricalCalibration, Linear dominances incl. zero-width ranges, dominance / joint "
+        "monotonicity lists of three and more pairs - acyclic chains with their transitive pair, duplicates, cycles of "
+        "length 3 and 4 - for Lattice, LatticeConstraints, Linear, LinearConstraints, unconstrained Linear layers with "
+        "input_min / input_max, categorical pairs incl. out of range and cycles, CDF "
         "(sparsity factor vs input dims / units, negative sizes, scaling type / monotonicity / initialiser / "
         "activation / reduction spellings), RTL (sizes, bounds, interpolation, parameterization x initialiser x "
-        "regulariser forms tuple / list / list of lists with wrong arity, int amounts, unknown names, per-dimension "
+        "regulariser forms tuple / list / list of lists / TUPLE OF TUPLES (also empty, with list entries) with wrong "
+        "arity, int amounts, unknown names, per-dimension "
         "amounts, init_min / init_max, num_terms, too few lattices), premade configs and premade_lib.verify_config "
         "on structured configs of all four model kinds with one-defect injection per check) run against the real constructor, build, kernel constraint on random dyadic weights, "
         "finalize, regulariser and first call: class must be ValueError-at-construction/build or accepted-and-"
@@ -62,6 +68,17 @@ LIMITS = [
     "(None, n) per key; RTL configurations the library fails on with a non-ValueError (unknown dict key -> "
     "KeyError, kernel_regularizer=[] -> IndexError, negative num_lattices x negative lattice_rank -> IndexError at "
     "call) are modelled (reject / accept as is) but not generated",
+    "sizes: Lattice / Linear / PWLCalibration / CategoricalCalibration units, Linear num_input_dims and categorical "
+    "num_buckets are modelled by accepts_*_layer (negative: TensorFlow's ValueError at build) and generated as -1 / -2 "
+    "(Lattice and PWLCalibration also units=0); PWLCalibration(units=0) (build raises InvalidArgumentError, not "
+    "ValueError) and Lattice(units=0) with one joint unimodality over all features (accepted - model theorem "
+    "C16_reject_lattice_layer_zero_units_refuted -, the first projection raises InvalidArgumentError) are generated "
+    "and counted under the open known finding D48 (class zero_sized_argument); Linear / CategoricalCalibration units=0 "
+    "and num_input_dims=0 (accepted by code and model) are not generated",
+    "integral floats: the glue normalises the canonicalisers' OUTPUT (1.0 -> 1) before typing it; a float trust "
+    "DIMENSION (rejected by the code's isinstance test) is not expressible in the glue and not generated",
+    "kernel_regularizer tuples for RTL: elements of the outer tuple that are neither tuples nor lists (a Keras "
+    "identifier such as 'l2', a callable) are not expressible in the glue and not generated",
 ]
 
 # ----------------------------------------------------------------------------
@@ -830,9 +847,15 @@ def wchoice(rng, pairs):
   return pairs[-1][0]
 
 
+FLOAT_SPELLING = 0.06
+
+
 def spell(rng, table, v, mode):
-  """mode: 'int' | 'str' | 'mix'."""
+  """mode: 'int' | 'str' | 'mix'.  In 'mix' mode an int is occasionally written as the float that equals it
+  (1 -> 1.0): `1.0 in [-1, 0, 1]` is True in Python, the canonicalisers accept and return it."""
   if v not in table or mode == "int" or (mode == "mix" and rng.random() < 0.5):
+    if mode == "mix" and v in table and isinstance(v, int) and rng.random() < FLOAT_SPELLING:
+      return float(v)
     return v
   return rng.choice(table[v])
 
@@ -859,6 +882,37 @@ def respell_list(rng, table, ints, mode):
   return [spell(rng, table, v, mode) for v in ints]
 
 
+def _one_joint_group_covers_all(kw, rank):
+  ju = kw.get("joint_unimodalities")
+  if isinstance(ju, dict):      # single tuple form
+    ju = [ju]
+  if not isinstance(ju, list) or len(ju) != 1:
+    return False
+  try:
+    dims = _untuple(_untuple(ju[0])[0])
+    return set(dims) == set(range(rank))
+  except Exception:  # pylint: disable=broad-except
+    return False
+
+
+def pair_list3(rng, pool, cyclic=None):
+  """Three or more (dominant, weak) pairs over >= 3 distinct dimensions of pool: an acyclic chain with its
+  transitive pair (a,b),(b,c),(a,c) [+ (c,d)], or a cycle (a,b),(b,c),(c,a) [4-cycle].  No pair is the reverse of
+  another one (verify_hyperparameters only rejects self pairs and 2-cycles)."""
+  k = 4 if len(pool) >= 4 and rng.random() < 0.3 else 3
+  ds = rng.sample(pool, k)
+  if cyclic is None:
+    cyclic = rng.random() < 0.5
+  if cyclic:
+    ps = [(ds[i], ds[(i + 1) % k]) for i in range(k)]
+  else:
+    ps = [(ds[0], ds[1]), (ds[1], ds[2]), (ds[0], ds[2])] + ([(ds[2], ds[3])] if k == 4 else [])
+    if rng.random() < 0.2:
+      ps.append(rng.choice(ps))   # a duplicate of one pair
+  rng.shuffle(ps)
+  return ps, cyclic
+
+
 def gen_lattice(rng, layer, force_valid=False):
   valid = force_valid or rng.random() < 0.55   # mostly-valid stream: every deliberately invalid option switched off
 
@@ -870,6 +924,8 @@ def gen_lattice(rng, layer, force_valid=False):
   syn = {}
   # monotonicities
   ms = [wchoice(rng, [(1, 6), (0, 4)]) for _ in range(rank)]
+  if rank >= 3 and rng.random() < 0.3:
+    ms = [1] * rank      # >= 3 monotone dimensions: room for dominance lists of three and more pairs
   mmode = wchoice(rng, [("none", 2), ("valid", 7), ("short", iw(0.4)), ("long", iw(0.3)), ("bad", iw(0.5)),
                         ("empty", 0.3)])
   if mmode == "none":
@@ -952,15 +1008,19 @@ def gen_lattice(rng, layer, force_valid=False):
     if rng.random() > p or (valid and len(pool) < 2):
       continue
     ps = []
-    for _ in range(wchoice(rng, [(1, 3), (2, 1)])):
-      if len(pool) >= 2 and (valid or rng.random() < 0.8):
-        a, b = rng.sample(pool, 2)
-      else:
-        a, b = anydim(), anydim()
-      if rng.random() < iw(0.05):
-        ps.append(T(a, b, 0))
-      else:
-        ps.append([a, b] if rng.random() < 0.2 else T(a, b))
+    if len(pool) >= 3 and rng.random() < 0.5:
+      # three or more pairs, acyclic or a cycle of length >= 3 (accepted by verify_hyperparameters)
+      ps = [T(a, b) for a, b in pair_list3(rng, pool)[0]]
+    else:
+      for _ in range(wchoice(rng, [(1, 3), (2, 1)])):
+        if len(pool) >= 2 and (valid or rng.random() < 0.8):
+          a, b = rng.sample(pool, 2)
+        else:
+          a, b = anydim(), anydim()
+        if rng.random() < iw(0.05):
+          ps.append(T(a, b, 0))
+        else:
+          ps.append([a, b] if rng.random() < 0.2 else T(a, b))
     form = wchoice(rng, [("list", 8), ("single", 1.5 if len(ps) == 1 and layer else 0),
                          ("tuple", 0.5), ("empty", 0.4), ("emptytuple", 0.2)])
     if form == "list":
@@ -1003,7 +1063,9 @@ def gen_lattice(rng, layer, force_valid=False):
   kw["num_projection_iterations"] = rng.choice([0, 1, 3])
   desc = {"wseed": rng.randrange(10 ** 6)}
   if layer:
-    kw["units"] = wchoice(rng, [(1, 2), (2, 1)])
+    # (units=0 is a ValueError at build, except with one joint unimodality over all features: built by the
+    # random_uniform fall-back, the first projection then fails - known finding D48, class zero_sized_argument)
+    kw["units"] = wchoice(rng, [(1, 2), (2, 1), (0, iw(0.12)), (-1, iw(0.15))])
     kw["interpolation"] = wchoice(rng, [("hypercube", 6), ("simplex", 3), ("Hypercube", iw(0.3)), ("cubic", iw(0.3))])
     kw["monotonic_at_every_step"] = rng.random() < 0.7
     if rng.random() < 0.2:
@@ -1014,6 +1076,10 @@ def gen_lattice(rng, layer, force_valid=False):
       if rng.random() < iw(0.03):
         regs = [T("l3", 0.1, 0.1)]
       kw["kernel_regularizer"] = regs[0] if len(regs) == 1 and rng.random() < 0.5 else regs
+      if isinstance(kw["kernel_regularizer"], list) and rng.random() < 0.25:
+        kw["kernel_regularizer"] = T(*regs)      # a tuple of regulariser tuples is iterated like the list
+      elif rng.random() < 0.08:
+        kw["kernel_regularizer"] = T()           # the empty tuple: falsy, no regulariser
     elif rng.random() < 0.03:
       kw["kernel_regularizer"] = rng.choice(["l1", "l2"])
     desc["kind"] = "Lattice"
@@ -1032,6 +1098,10 @@ def gen_lattice(rng, layer, force_valid=False):
 def gen_linear(rng, layer, force_valid=False):
   n = rng.randint(1, 3)
   ms = [wchoice(rng, [(1, 5), (0, 2), (-1, 2)]) for _ in range(n)]
+  many = rng.random() < 0.12     # a dominance list of three or more pairs (needs >= 3 features of one direction)
+  if many:
+    n = rng.choice([3, 3, 4])
+    ms = [rng.choice([1, 1, -1])] * n if rng.random() < 0.5 else [1] * n
   kw, syn = {}, {}
   desc = {"wseed": rng.randrange(10 ** 6), "n": n}
   valid = force_valid or rng.random() < 0.5
@@ -1040,6 +1110,8 @@ def gen_linear(rng, layer, force_valid=False):
     return 0 if valid else w
   mmode = wchoice(rng, [("list", 8), ("scalar", 1.0 if layer else 0), ("none", 1 if layer else iw(1)),
                         ("bad", iw(0.4)), ("wronglen", iw(0.4)), ("empty", iw(0.2))])
+  if many:
+    mmode = "list"
   if mmode == "list":
     kw["monotonicities"] = respell_list(rng, MONO_SP, ms, "mix")
     syn["monotonicities"] = respell_list(rng, MONO_SP, ms, "str")
@@ -1065,7 +1137,19 @@ def gen_linear(rng, layer, force_valid=False):
   def anydim():
     return rng.choice(list(range(n)) + ([] if valid else [-1, n]))
   used = set()
-  if rng.random() < 0.35 and (len(inc) >= 2 or not valid) and mmode in ("list", "scalar", "bad", "wronglen") + (
+  many_kind = None
+  if many:
+    # monotonic dominances need increasing features; range dominances any common direction
+    many_kind = "mdom" if (ms[0] == 1 and rng.random() < 0.6) else "rdom"
+    ps3, cyc = pair_list3(rng, list(range(n)))
+    desc["many_pairs"] = "%s_%s" % (many_kind, "cycle" if cyc else "acyclic")
+    ps3 = [T(a, b) if rng.random() < 0.85 else [a, b] for a, b in ps3]
+    if many_kind == "mdom":
+      kw["monotonic_dominances"] = ps3 if rng.random() < 0.85 else T(*ps3)
+      used.update(range(n))
+  if many:
+    pass
+  elif rng.random() < 0.35 and (len(inc) >= 2 or not valid) and mmode in ("list", "scalar", "bad", "wronglen") + (
       () if valid else ("none", "empty")):
     ps = []
     for _ in range(wchoice(rng, [(1, 3), (2, iw(1))])):
@@ -1081,7 +1165,13 @@ def gen_linear(rng, layer, force_valid=False):
   want_range = rng.random() < 0.4 and (same or not valid) and mmode in ("list", "scalar", "bad", "wronglen") + (
       () if valid else ("none", "empty"))
   rused = set()
-  if want_range:
+  if many:
+    want_range = many_kind == "rdom"
+    if want_range:
+      kw["range_dominances"] = ps3 if rng.random() < 0.85 else T(*ps3)
+      rused.update(range(n))
+      valid = True      # (every feature needs a proper input range)
+  elif want_range:
     ps = []
     for _ in range(wchoice(rng, [(1, 3), (2, iw(1))])):
       if same and (valid or rng.random() < 0.85):
@@ -1119,7 +1209,7 @@ def gen_linear(rng, layer, force_valid=False):
     kw["normalization_order"] = rng.choice([1, 2])
   if layer:
     kw["num_input_dims"] = n
-    kw["units"] = wchoice(rng, [(1, 2), (2, 1)])
+    kw["units"] = wchoice(rng, [(1, 2), (2, 1), (-1, iw(0.2)), (-2, iw(0.05))])
     kw["use_bias"] = rng.random() < 0.7
     if rng.random() < 0.04:
       kw["kernel_regularizer"] = rng.choice(["l1", "l2"])
@@ -1166,7 +1256,8 @@ def gen_pwl(rng, force_valid=False):
     ks = list(range(int(start), int(start) + k))
   kw = {"input_keypoints": None if kmode == "none" else (T(*ks) if rng.random() < 0.2 else ks)}
   syn = {}
-  kw["units"] = wchoice(rng, [(1, 2), (2, 1)])
+  # (units=0 raises InvalidArgumentError at build: known finding D48, class zero_sized_argument)
+  kw["units"] = wchoice(rng, [(1, 2), (2, 1), (-1, iw(0.12)), (-2, iw(0.04)), (0, iw(0.08))])
   lo, hi = bounds_combo(rng, valid)
   if lo is not None:
     kw["output_min"] = lo
@@ -1202,7 +1293,7 @@ def gen_pwl(rng, force_valid=False):
     if rng.random() < 0.4:
       kw["missing_output_value"] = 0.5
   kw["input_keypoints_type"] = wchoice(rng, [("fixed", 8), ("learned_interior", 1.5 if (c == 0 or not valid) else 0),
-                                             ("learned", iw(0.4))])
+                                             ("learned", iw(0.4)), (None, iw(0.4))])
   if rng.random() < 0.25:
     kw["split_outputs"] = True
   desc = {"kind": "PWLCalibration", "kw": kw, "wseed": rng.randrange(10 ** 6)}
@@ -1239,7 +1330,7 @@ def gen_categorical(rng, layer, force_valid=False):
 
   def iw(w):
     return 0 if valid else w
-  nb = wchoice(rng, [(1, 0.7), (2, 3), (3, 4), (4, 2), (0, iw(0.2))])
+  nb = wchoice(rng, [(1, 0.7), (2, 3), (3, 4), (4, 2), (0, iw(0.2)), (-1, iw(0.2) if layer else 0)])
   kw = {}
   lo, hi = bounds_combo(rng, valid)
   if lo is not None:
@@ -1261,7 +1352,7 @@ def gen_categorical(rng, layer, force_valid=False):
   desc = {"wseed": rng.randrange(10 ** 6)}
   if layer:
     kw["num_buckets"] = nb
-    kw["units"] = wchoice(rng, [(1, 2), (2, 1)])
+    kw["units"] = wchoice(rng, [(1, 2), (2, 1), (-1, iw(0.2))])
     kw["kernel_initializer"] = rng.choice(["uniform", "constant"])
     if rng.random() < 0.3:
       kw["default_input_value"] = -1
@@ -1466,6 +1557,12 @@ def gen_rtl(rng, force_valid=False):
         (T("torsion", 0.1, 0.0), 2), (["laplacian", 0.1, 0.1], 2), (T("Laplacian", 1, 0.5), 1),
         ([["torsion", 0.1, 0.0], ["laplacian", 0.5, 0.0]], 1), ([T("torsion", 0.1, 0.0), ["LAPLACIAN", 0.5, 0.25]], 1),
         (T("laplacian", [0.25] * rk, 0.0), 1), (T("torsion", 0.0, T(*([0.5] * rk))), 1), (T("laplacian", [], 0.5), 0.3),
+        # a TUPLE of regulariser tuples (rtl_lib inspects lists only; the Lattice layers iterate the tuple)
+        (T(T("torsion", 0.1, 0.1)), 1.5), (T(T("torsion", 0.1, 0.0), T("Laplacian", 0.5, 0.25)), 1),
+        (T(T("laplacian", 1, 0.5)), 0.7), (T(T("torsion", [0.25] * rk, 0.0), T("laplacian", 0.5, 0)), 0.5), (T(), 1.2),
+        (T(T("torsion", 0.1)), iw(0.4)), (T(T("l3", 0.1, 0.1)), iw(0.4)), (T(["torsion", 0.1, 0.1]), iw(0.4)),
+        (T(T("torsion", 0.1, 0.0), T("laplacian", [0.25] * (rk + 1), 0.0)), iw(0.4)),
+        (T(T("torsion", 0.1, 0.0), ["laplacian", 0.5, 0.0]), iw(0.3)),
         (["torsion", 1, 0.0], iw(0.5)), (["torsion", 0.5, 1], iw(0.5)), (["torsion", 0.1], iw(0.5)),
         ([["torsion", 0.1, 0.0], ["laplacian", 0.5]], iw(0.4)), (["torsion", 0.1, 0.0, 0.0], iw(0.3)),
         (["laplacian", [0.25] * rk, 0.0], iw(0.4)),
@@ -1490,7 +1587,8 @@ def inject_rtl_defect(rng, desc):
     opts += ["kfl_linear", "kfl_linear", "kfl_reg", "kfl_reg", "kfl_terms", "kfl_terms", "kfl_lattice_init"]
   else:
     opts += ["reg_list_len", "reg_list_l1_int", "reg_list_l2_int", "reg_list_amount_list", "reg_tuple_len",
-             "reg_name", "reg_amount_len", "init_range_empty", "init_range_default_empty", "lattice_kfl_init"]
+             "reg_name", "reg_amount_len", "init_range_empty", "init_range_default_empty", "lattice_kfl_init",
+             "reg_tuples_entry"]
   d = rng.choice(opts)
   desc["defect"] = d
   rank = kw["lattice_rank"]
@@ -1521,7 +1619,8 @@ def inject_rtl_defect(rng, desc):
   elif d == "kfl_linear":
     kw["kernel_initializer"] = "linear_initializer"
   elif d == "kfl_reg":
-    kw["kernel_regularizer"] = rng.choice([T("torsion", 0.1, 0.0), ["laplacian", 0.1, 0.1], [["torsion", 0.1, 0.0]]])
+    kw["kernel_regularizer"] = rng.choice([T("torsion", 0.1, 0.0), ["laplacian", 0.1, 0.1], [["torsion", 0.1, 0.0]],
+                                           T(T("torsion", 0.1, 0.0)), T()])
   elif d == "kfl_terms":
     kw["num_terms"] = rng.choice([-1, -2])
   elif d == "kfl_lattice_init":
@@ -1538,6 +1637,11 @@ def inject_rtl_defect(rng, desc):
     kw["kernel_regularizer"] = ["laplacian", [0.25] * rank, 0.0]
   elif d == "reg_tuple_len":
     kw["kernel_regularizer"] = rng.choice([T("torsion", 0.1), T("torsion", 0.1, 0.1, 0.1), T("laplacian")])
+  elif d == "reg_tuples_entry":
+    kw["kernel_regularizer"] = rng.choice([
+        T(T("torsion", 0.1)), T(T("torsion", 0.1, 0.0), T("laplacian", 0.5, 0.0, 0.0)), T(T("hessian", 0.5, 0.0)),
+        T(T("torsion", 0.1, 0.0), T("l2", 0.5, 0.0)), T(["torsion", 0.1, 0.1]),
+        T(T("laplacian", [0.25] * (rank + 1), 0.0))])
   elif d == "reg_name":
     kw["kernel_regularizer"] = rng.choice([T("l3", 0.1, 0.1), ["wrinkle", 0.1, 0.1], T("hessian", 0.5, 0.0),
                                            [["torsion", 0.5, 0.0], ["l2", 0.5, 0.0]]])
@@ -1903,7 +2007,11 @@ def coq_lattice(desc, kw, obs):
       cval(g["edgeworth_trusts"]), cval(g["trapezoid_trusts"]), c_zll(g["monotonic_dominances"]),
       c_zll(g["range_dominances"]), c_zll(g["joint_monotonicities"]), cju,
       c_optq(kw.get("output_min")), c_optq(kw.get("output_max")), cval(kw.get("interpolation", "hypercube")))
-  return "mk (%s %s) %s" % ("CLatticeL" if layer else "CLatticeC", raw, obs)
+  if layer:
+    if not _is_int(kw.get("units", 1)):
+      raise NotExpressible()
+    return "mk (CLatticeL %s %s) %s" % (raw, cz(kw.get("units", 1)), obs)
+  return "mk (CLatticeC %s) %s" % (raw, obs)
 
 
 def coq_linear(desc, kw, obs):
@@ -1923,14 +2031,16 @@ def coq_linear(desc, kw, obs):
       m = [0] * nd
     constrained = bool(any(m) or mdom or rdom or kw.get("normalization_order"))
     if not constrained:
-      if imin is not None or imax is not None:
-        raise NotExpressible()
+      # no LinearConstraints object is built: (empty) dominance lists are never verified; the layer itself still
+      # verifies monotonicities / input_min / input_max (lengths, order) in __init__ and canonicalises the bounds
       mdom = rdom = None
+    if not _is_int(nd) or not _is_int(kw.get("units", 1)):
+      raise NotExpressible()
   for v in (m, imin, imax):
     if not in_universe(v):
       raise NotExpressible()
   raw = "(mkNR %s %s %s %s %s %s)" % (cval(m), n, c_zll(mdom), c_zll(rdom), cval(imin), cval(imax))
-  return "mk (CLinear %s) %s" % (raw, obs)
+  return "mk (CLinear %s %s) %s" % (raw, "(Some %s)" % cz(kw.get("units", 1)) if layer else "None", obs)
 
 
 def coq_pwl(desc, kw, obs):
@@ -1950,7 +2060,10 @@ def coq_pwl(desc, kw, obs):
       cval(kw.get("input_keypoints_type", "fixed") if layer else "fixed"),
       cbool(kw.get("impute_missing", False)), cbool(kw.get("missing_input_value") is not None),
       cbool(kw.get("missing_output_value") is not None), cbool(layer))
-  return "mk (CPwl %s) %s" % (raw, obs)
+  units = kw.get("units", 1) if layer else 1
+  if not _is_int(units):
+    raise NotExpressible()
+  return "mk (CPwl %s %s) %s" % (raw, cz(units), obs)
 
 
 def coq_categorical(desc, kw, obs):
@@ -1959,7 +2072,9 @@ def coq_categorical(desc, kw, obs):
   nb = "(Some %s)" % cz(kw["num_buckets"]) if layer else "None"
   raw = "(mkC %s %s %s %s %s)" % (nb, c_optq(kw.get("output_min")), c_optq(kw.get("output_max")),
                                   cbool(isinstance(ms, list)), c_zll(ms))
-  return "mk (CCat %s) %s" % (raw, obs)
+  if layer and not _is_int(kw.get("units", 1)):
+    raise NotExpressible()
+  return "mk (CCat %s %s) %s" % (raw, "(Some %s)" % cz(kw.get("units", 1)) if layer else "None", obs)
 
 
 def coq_kfl(desc, kw, obs):
@@ -2137,6 +2252,8 @@ def _ci(v, table):
   """Canonical int of a spelled value (None when it is not a known spelling)."""
   if isinstance(v, bool):
     return None
+  if isinstance(v, float) and v == int(v):
+    v = int(v)
   if isinstance(v, int):
     return v if v in table else None
   if isinstance(v, str):
@@ -2177,7 +2294,7 @@ def inject_lattice_defect(rng, desc):
   if any(s >= 3 for s in sizes):
     opts += ["junimod_dup", "junimod_dir", "junimod_range"]
   if layer:
-    opts += ["interp"]
+    opts += ["interp", "units_neg", "units_zero"]
   d = rng.choice(opts)
   desc["defect"] = d
   big = [i for i in range(rank) if sizes[i] >= 3]
@@ -2274,6 +2391,10 @@ def inject_lattice_defect(rng, desc):
       kw["joint_unimodalities"] = [T([rng.choice(big), rank], "peak")]
   elif d == "interp":
     kw["interpolation"] = rng.choice(["Hypercube", "cubic", "SIMPLEX"])
+  elif d == "units_neg":
+    kw["units"] = rng.choice([-1, -1, -2])
+  elif d == "units_zero":
+    kw["units"] = 0
   return desc
 
 
@@ -2286,6 +2407,8 @@ def inject_linear_defect(rng, desc):
   inc = [i for i in range(n) if ms[i] == 1]
   nz = [i for i in range(n) if ms[i] in (1, -1)]
   opts = ["mono_bad", "mono_len", "bounds_gt"]
+  if desc["kind"] == "Linear":
+    opts += ["units_neg", "dims_neg"]
   if inc:
     opts += ["mdom_range", "mdom_len"]
   if len(inc) >= 2:
@@ -2299,7 +2422,15 @@ def inject_linear_defect(rng, desc):
   d = rng.choice(opts)
   desc["defect"] = d
   full = lambda lo=0.0, hi=1.0: ([lo] * n, [hi] * n)
-  if d == "mono_bad":
+  if d == "units_neg":
+    kw["units"] = rng.choice([-1, -1, -2])
+  elif d == "dims_neg":
+    # nothing but the size is wrong: no per-feature lists whose length could be tested first
+    for k in ("monotonic_dominances", "range_dominances", "input_min", "input_max"):
+      kw.pop(k, None)
+    kw["num_input_dims"] = rng.choice([-1, -1, -2])
+    kw["monotonicities"] = rng.choice([None, "none", 0, 1, "increasing"])
+  elif d == "mono_bad":
     b = [v if v is not None else 0 for v in ms]
     b[rng.randrange(n)] = rng.choice([2, "up", "positive", -2])
     kw["monotonicities"] = b
@@ -2364,8 +2495,8 @@ def inject_pwl_defect(rng, desc):
   desc.pop("syn", None)
   ks = _untuple(kw["input_keypoints"])
   d = rng.choice(["kp_short", "kp_dup", "kp_unsorted", "kp_none", "bounds_gt", "cyclic_mono", "cyclic_convex",
-                  "mono_bad", "mono_none", "convex_bad", "kp_type", "learned_convex", "missing_in", "missing_out",
-                  "cyclic_two"])
+                  "mono_bad", "mono_none", "convex_bad", "convex_none", "kp_type", "kp_type_none", "learned_convex",
+                  "missing_in", "missing_out", "cyclic_two", "units_neg"])
   desc["defect"] = d
   if d == "kp_short":
     kw["input_keypoints"] = ks[:1]
@@ -2378,10 +2509,11 @@ def inject_pwl_defect(rng, desc):
   elif d == "bounds_gt":
     kw["output_min"], kw["output_max"] = 1.0, 0.5
   elif d == "cyclic_mono":
-    kw.update(is_cyclic=True, monotonicity=rng.choice([1, -1, "increasing", "Decreasing"]), convexity=0,
+    kw.update(is_cyclic=True, monotonicity=rng.choice([1, -1, "increasing", "Decreasing", 1.0, -1.0]),
+              convexity=rng.choice([0, 0, 0.0]),
               input_keypoints_type="fixed", input_keypoints=[0.0, 1.0, 2.0])
   elif d == "cyclic_convex":
-    kw.update(is_cyclic=True, monotonicity="none", convexity=rng.choice([1, -1, "convex", "Concave"]),
+    kw.update(is_cyclic=True, monotonicity="none", convexity=rng.choice([1, -1, "convex", "Concave", 1.0]),
               input_keypoints_type="fixed", input_keypoints=[0.0, 1.0, 2.0])
   elif d == "cyclic_two":
     kw.update(is_cyclic=True, monotonicity=0, convexity="none", input_keypoints=[0.0, 1.0],
@@ -2392,10 +2524,16 @@ def inject_pwl_defect(rng, desc):
     kw["monotonicity"] = None
   elif d == "convex_bad":
     kw["convexity"] = rng.choice([2, "flat", "increasing"])
+  elif d == "convex_none":
+    kw["convexity"] = None
   elif d == "kp_type":
     kw["input_keypoints_type"] = rng.choice(["learned", "Fixed", "interior"])
+  elif d == "kp_type_none":
+    kw["input_keypoints_type"] = None
+  elif d == "units_neg":
+    kw["units"] = rng.choice([-1, -1, -3])
   elif d == "learned_convex":
-    kw.update(input_keypoints_type="learned_interior", convexity=rng.choice([1, -1, "convex", "CONCAVE"]),
+    kw.update(input_keypoints_type="learned_interior", convexity=rng.choice([1, -1, "convex", "CONCAVE", -1.0]),
               is_cyclic=False)
   elif d == "missing_in":
     kw.update(impute_missing=False, missing_input_value=-1.0)
@@ -2410,10 +2548,15 @@ def inject_categorical_defect(rng, desc):
   nb = kw.get("num_buckets", desc.get("n", 3))
   opts = ["bounds_gt", "pair_negative", "pair_len", "pairs_tuple"]
   if layer:
-    opts += ["pair_eq_buckets", "pair_eq_buckets", "cycle2", "self_pair"]
+    opts += ["pair_eq_buckets", "pair_eq_buckets", "cycle2", "self_pair", "units_neg", "buckets_neg"]
   d = rng.choice(opts)
   desc["defect"] = d
-  if d == "bounds_gt":
+  if d == "units_neg":
+    kw["units"] = rng.choice([-1, -2])
+  elif d == "buckets_neg":
+    kw["num_buckets"] = rng.choice([-1, -2])
+    kw.pop("monotonicities", None)
+  elif d == "bounds_gt":
     kw["output_min"], kw["output_max"] = 1.0, 0.5
   elif d == "pair_negative":
     kw["monotonicities"] = [T(-1, 0)]
@@ -2543,6 +2686,15 @@ def fixed_witnesses():
        "syn": {"lattice_sizes": [3], "joint_unimodalities": [T([0], "valley")], "num_projection_iterations": 8}},
       {"kind": "PWLCalibration", "tag": "D62", "wseed": 18,
        "kw": {"input_keypoints": [0.0, 1.0, 2.0], "units": 1, "input_keypoints_type": None}},
+      {"kind": "PWLCalibration", "tag": "D64", "wseed": 19,
+       "kw": {"input_keypoints": [0.25, 0.5, 1.5, 2.5, 4.5], "units": 1, "monotonicity": "None", "convexity": None,
+              "is_cyclic": True, "num_projection_iterations": 1}},
+      {"kind": "PWLCalibration", "tag": "D64", "wseed": 19,
+       "kw": {"input_keypoints": [0.0, 1.0, 2.0, 3.0, 4.0], "units": 2, "convexity": None}},
+      {"kind": "PWLCalibration", "tag": "D48", "wseed": 20, "kw": {"input_keypoints": [0.0, 1.0, 2.0], "units": 0}},
+      {"kind": "Lattice", "tag": "D48", "wseed": 21,
+       "kw": {"lattice_sizes": [3, 3], "units": 0, "joint_unimodalities": [T([0, 1], "peak")]}},
+      {"kind": "Lattice", "tag": "units0", "wseed": 21, "kw": {"lattice_sizes": [2, 2], "units": 0, "monotonicities": [1, 1]}},
       {"kind": "PWLCalibration", "tag": "D44", "wseed": 14,
        "kw": {"input_keypoints": [0.0, 1.0, 2.0], "units": 1, "monotonicity": 0, "convexity": "None",
               "input_keypoints_type": "learned_interior"},
@@ -2594,6 +2746,66 @@ def gen_descs(ctx):
   out.extend({"kind": "verify_config", "tag": d["tag"], "kw": d["kw"]} for d in pm)
   out.extend(misc_descs())
   return out
+
+
+def _has_float_spelling(v):
+  if isinstance(v, float):
+    return v == int(v)
+  if isinstance(v, (list, tuple)):
+    return any(_has_float_spelling(x) for x in v)
+  return False
+
+
+def _pairs_cyclic(ps):
+  """A directed cycle of length >= 3 among (dominant, weak) pairs (2-cycles and self pairs are rejected up front)."""
+  edges = {}
+  for p in ps:
+    if isinstance(p, (list, tuple)) and len(p) == 2:
+      edges.setdefault(p[0], set()).add(p[1])
+  def reach(a, b, seen):
+    for c in edges.get(a, ()):
+      if c == b or (c not in seen and reach(c, b, seen | {c})):
+        return True
+    return False
+  return any(reach(a, a, {a}) for a in edges)
+
+
+def class_tags(desc, kw):
+  """Histogram tags of the input classes added for the audit gaps (empty for everything else)."""
+  tags = []
+  kind = desc["kind"]
+  try:
+    for a in ("units", "num_input_dims", "num_buckets"):
+      if kind in ("Lattice", "Linear", "PWLCalibration", "CategoricalCalibration") and _is_int(kw.get(a)) and (
+          kw[a] < 0 or (kw[a] == 0 and a == "units" and kind in ("Lattice", "PWLCalibration"))):
+        tags.append("+%s<=0" % a)
+    if kind == "PWLCalibration" and "input_keypoints_type" in kw and kw["input_keypoints_type"] is None:
+      tags.append("+kp_type_None")
+    if kind in ("PWLCalibration", "PWLCalibrationConstraints") and (
+        _has_float_spelling(kw.get("monotonicity")) or _has_float_spelling(kw.get("convexity"))):
+      tags.append("+float_spelling")
+    elif kind in ("Lattice", "LatticeConstraints", "Linear", "LinearConstraints", "KroneckerFactoredLattice") and (
+        _has_float_spelling(kw.get("monotonicities")) or _has_float_spelling(kw.get("unimodalities")) or
+        any(_has_float_spelling(t[2:]) for a in ("edgeworth_trusts", "trapezoid_trusts")
+            for t in (kw.get(a) or []) if isinstance(t, (list, tuple)) and len(t) == 3)):
+      tags.append("+float_spelling")
+    reg = kw.get("kernel_regularizer")
+    if kind in ("RTL", "Lattice") and isinstance(reg, tuple) and not (reg and isinstance(reg[0], str)):
+      tags.append("+reg_tuple_of_tuples")
+    if kind in ("Lattice", "LatticeConstraints", "Linear", "LinearConstraints"):
+      for a in ("monotonic_dominances", "range_dominances", "joint_monotonicities"):
+        ps = kw.get(a)
+        if isinstance(ps, (list, tuple)) and len(ps) >= 3 and not (ps and isinstance(ps[0], int)):
+          tags.append("+%s>=3pairs_%s" % (a, "cyclic" if _pairs_cyclic(ps) else "acyclic"))
+    if kind == "Linear":
+      m = kw.get("monotonicities")
+      m = list(m) if isinstance(m, (list, tuple)) else [m]
+      if not (any(m) or kw.get("monotonic_dominances") or kw.get("range_dominances") or kw.get("normalization_order")) \
+         and (kw.get("input_min") is not None or kw.get("input_max") is not None):
+        tags.append("+unconstrained_with_input_bounds")
+  except Exception:  # pylint: disable=broad-except
+    tags.append("+tag_error")
+  return "".join(tags)
 
 
 def eval_constructor(desc):
@@ -2655,7 +2867,7 @@ def eval_constructor(desc):
         coq = render_run(desc, kw, "Accepted" if run.accepted else "Rejected", run)
     except NotExpressible:
       coq = None
-  klass = "%s:%s" % (desc["kind"], run.cls if run.cls != "fail" else "fail@" + str(run.stage))
+  klass = "%s:%s%s" % (desc["kind"], run.cls if run.cls != "fail" else "fail@" + str(run.stage), class_tags(desc, kw))
   return Case(desc, coq=coq, pred_fail=fail, nontrivial=(run.cls == "accepted"), klass=klass, info=info)
 
 
@@ -2855,6 +3067,10 @@ def _p17(kind, kw, stage, exc, msg, desc):
   zero = any(kw.get(a) == 0 and kw.get(a) is not False for a in (
       "lattice_sizes", "units", "num_terms", "num_keypoints", "sparsity_factor", "num_buckets", "num_lattices",
       "lattice_rank"))
+  if kind in ("PWLCalibration", "Lattice"):
+    # units=0: PWLCalibration.build raises InvalidArgumentError; Lattice with the random_uniform fall-back (one joint
+    # unimodality over all features) is built and its first projection raises InvalidArgumentError
+    return kw.get("units") == 0 and kw.get("units") is not False and exc == "InvalidArgumentError"
   return kind in ("KroneckerFactoredLattice", "CDF", "CategoricalCalibration", "RTL") and zero
 
 
